@@ -524,6 +524,7 @@ func (w *world) msgTimeout(o *lib.Out, r *lib.Rand, name string, v int64, in map
 // ---------------------------------------------------------------- cases
 
 type NumIn struct {
+	Batch    []NumIn `json:"batch,omitempty"` // path b10batch
 	Kind     string `json:"kind"`
 	Path     string `json:"path"` // b10 rdy req dpub http msdur msgtimeout
 	World    int    `json:"world"`
@@ -586,6 +587,29 @@ func runOne(o *lib.Out, r *lib.Rand, ws []*world, name string, in NumIn) {
 		}
 		o.Emit(lib.Case{Name: name, Coq: fmt.Sprintf("(J04.B10 %s %s)", zbytes(sp), res), Input: in,
 			Tags: []string{"kind=b10", "class=" + class, "b10=" + kind}, Nontrivial: true})
+	case "b10batch":
+		var parts, tags []string
+		seen := map[string]bool{}
+		for _, e := range in.Batch {
+			b := e.bytes()
+			v, err := verifshim.ByteToBase10(b)
+			res, kind := "(-1)", "error"
+			if err == nil {
+				res, kind = fmt.Sprintf("%d", v), "value"
+				if v == math.MaxUint64 {
+					kind = "max-uint64"
+				}
+			}
+			parts = append(parts, fmt.Sprintf("(%s,%s)", zbytes(b), res))
+			for _, t := range []string{"class=" + e.Class, "b10=" + kind} {
+				if !seen[t] {
+					seen[t] = true
+					tags = append(tags, t)
+				}
+			}
+		}
+		o.Emit(lib.Case{Name: name, Coq: "(J04.B10s [" + strings.Join(parts, ";") + "])", Input: in,
+			Tags: append([]string{"kind=b10-batch"}, tags...), Nontrivial: true})
 	case "msdur":
 		ns := nsqd.VerifMsToDuration(uint64(in.V))
 		o.Emit(lib.Case{Name: name, Coq: fmt.Sprintf("(J04.MsDur %d %s)", uint64(in.V), z(ns)), Input: in,
@@ -662,11 +686,23 @@ func main() {
 
 	live := []string{"req", "dpub", "http", "rdy"}
 	count := 0
+	var batch []NumIn
+	nb := 0
+	b10 := func(in NumIn, flush bool) {
+		if in.Path != "" {
+			batch = append(batch, in)
+		}
+		if len(batch) >= 10 || flush && len(batch) > 0 {
+			nb++
+			runOne(o, r, ws, fmt.Sprintf("b10-batch-%d", nb), NumIn{Kind: "num", Path: "b10batch", Batch: batch})
+			batch = nil
+		}
+	}
 	for wi, w := range ws {
 		for _, sp := range boundaries(int64(w.maxReq/time.Millisecond), w.maxRdy) {
 			count++
 			if wi == 0 {
-				runOne(o, r, ws, fmt.Sprintf("b-%d-b10", count), mkIn("b10", wi, sp))
+				b10(mkIn("b10", wi, sp), false)
 			}
 			for _, p := range live {
 				runOne(o, r, ws, fmt.Sprintf("b-%d-%s", count, p), mkIn(p, wi, sp))
@@ -678,11 +714,13 @@ func main() {
 		wi := k % len(ws)
 		w := ws[wi]
 		sp := randomSpelling(r, int64(w.maxReq/time.Millisecond), w.maxRdy)
-		runOne(o, r, ws, fmt.Sprintf("r-%d-b10", k), mkIn("b10", wi, sp))
+		b10(mkIn("b10", wi, sp), false)
 		p := live[(k/len(ws))%len(live)]
 		runOne(o, r, ws, fmt.Sprintf("r-%d-%s", k, p), mkIn(p, wi, sp))
 	}
+	b10(NumIn{}, true)
 	o.Stat("random_spellings", *n)
+	o.Stat("b10_spellings", count/len(ws)+*n)
 	// msToDuration
 	for i, v := range []uint64{0, 1, 3600000, 9223372036853, 9223372036854, 9223372036855, 1 << 62, 1 << 63, math.MaxUint64, r.U64(), r.U64() >> 20, r.U64() >> 21, r.U64() >> 22} {
 		runOne(o, r, ws, fmt.Sprintf("msdur-%d", i), NumIn{Kind: "num", Path: "msdur", V: int64(v)})
